@@ -19,6 +19,9 @@ import (
 //   verifMake(kind)          -> JS values of a given kind for the JS -> Go direction
 //   verifTouch(x)            -> writes 42 into x[0] (typed arrays share storage with the Go slice)
 
+// NonNumbers is the number of JavaScript values of kind "nonnumbers" in js/probe11.js.
+const NonNumbers = 24
+
 type val struct {
 	ID     string
 	Type   string // Go type
@@ -78,6 +81,15 @@ func vals() []val {
 			vs = append(vs, y)
 		}
 	}
+	for _, e := range []struct{ id, typ, expr, js string }{
+		{"int64/min", "int64", "int64(-9223372036854775808)", "-9223372036854776000"}, {"int64/max", "int64", "int64(9223372036854775807)", "9223372036854776000"},
+		{"uint64/2^63", "uint64", "uint64(9223372036854775808)", "9223372036854776000"}, {"uint64/max", "uint64", "uint64(18446744073709551615)", "18446744073709552000"},
+		{"uint64/2^63+2^11", "uint64", "uint64(9223372036854777856)", "9223372036854778000"}, {"int64/-2^53-2", "int64", "int64(-9007199254740994)", "-9007199254740994"},
+	} {
+		x := num(e.id, e.typ, e.expr, e.js)
+		x.Back = "" // outside the range representable on both sides: no round trip
+		vs = append(vs, x)
+	}
 	floats := []struct{ expr, js, bits string }{
 		{"0.0", "0", "f0"}, {"negZero()", "-0", "f8000000000000000"}, {"1.5", "1.5", "f3ff8000000000000"}, {"-1.5", "-1.5", "fbff8000000000000"},
 		{"posInf()", "Infinity", "f7ff0000000000000"}, {"negInf()", "-Infinity", "ffff0000000000000"}, {"nan()", "NaN", "NaN"},
@@ -100,6 +112,10 @@ func vals() []val {
 	for _, t := range typed {
 		vs = append(vs, val{ID: "slice/" + t.typ, Type: "[]" + t.typ, Expr: "[]" + t.typ + "{1, 2, 3}", JS: t.ctor + ":[number:1,number:2,number:3]", Back: "itoa(int64(r.Length())) + itoa(int64(r.Index(2).Int()))", BackOK: "33"})
 		vs = append(vs, val{ID: "subslice/" + t.typ, Type: "[]" + t.typ, Expr: "[]" + t.typ + "{9, 1, 2, 3, 9}[1:4]", JS: t.ctor + ":[number:1,number:2,number:3]", Back: "itoa(int64(r.Length()))", BackOK: "3"})
+		vs = append(vs, val{ID: "clipslice/" + t.typ, Type: "[]" + t.typ, Expr: "[]" + t.typ + "{1, 2, 3, 9, 9}[:3:3]", JS: t.ctor + ":[number:1,number:2,number:3]", Back: "itoa(int64(r.Length()))", BackOK: "3"})
+		vs = append(vs, val{ID: "clipmid/" + t.typ, Type: "[]" + t.typ, Expr: "[]" + t.typ + "{9, 1, 2, 3, 9}[1:4:4]", JS: t.ctor + ":[number:1,number:2,number:3]", Back: "itoa(int64(r.Length()))", BackOK: "3"})
+		vs = append(vs, val{ID: "emptyclip/" + t.typ, Type: "[]" + t.typ, Expr: "[]" + t.typ + "{9, 9}[:0:0]", JS: t.ctor + ":[]", Back: "itoa(int64(r.Length()))", BackOK: "0"})
+		vs = append(vs, val{ID: "prefix/" + t.typ, Type: "[]" + t.typ, Expr: "make([]" + t.typ + ", 2, 8)", JS: t.ctor + ":[number:0,number:0]", Back: "itoa(int64(r.Length()))", BackOK: "2"})
 		vs = append(vs, val{ID: "array/" + t.typ, Type: "[2]" + t.typ, Expr: "[2]" + t.typ + "{4, 5}", JS: t.ctor + ":[number:4,number:5]", Back: "itoa(int64(r.Length()))", BackOK: "2"})
 	}
 	vs = append(vs,
@@ -108,6 +124,9 @@ func vals() []val {
 		val{ID: "slice/int64", Type: "[]int64", Expr: "[]int64{1, 1 << 40}", JS: "Array:[number:1,number:1099511627776]", Back: "itoa(r.Index(1).Int64())", BackOK: "1099511627776"},
 		val{ID: "slice/bool", Type: "[]bool", Expr: "[]bool{true, false}", JS: "Array:[boolean:true,boolean:false]", Back: "btoa(r.Index(0).Bool())", BackOK: "T"},
 		val{ID: "slice/nested", Type: "[][]int", Expr: "[][]int{{1}, {2, 3}}", JS: "Array:[Int32Array:[number:1],Int32Array:[number:2,number:3]]", Back: "itoa(int64(r.Index(1).Index(1).Int()))", BackOK: "3"},
+		val{ID: "slice/clipstr", Type: "[]string", Expr: `[]string{"a", "b", "c"}[:2:2]`, JS: "Array:[string:0061,string:0062]", Back: "itoa(int64(r.Length()))", BackOK: "2"},
+		val{ID: "slice/clipnested", Type: "[][]uint8", Expr: "[][]uint8{[]uint8{1, 2, 3}[:1:1], []uint8{4, 5}[1:]}", JS: "Array:[Uint8Array:[number:1],Uint8Array:[number:5]]", Back: "itoa(int64(r.Length()))", BackOK: "2"},
+		val{ID: "map/clipslice", Type: "map[string][]int", Expr: `map[string][]int{"k": []int{1, 2, 3}[:2:2]}`, JS: "Object:{k=Int32Array:[number:1,number:2]}", Back: "itoa(int64(r.Get(\"k\").Length()))", BackOK: "2"},
 		val{ID: "slice/S", Type: "js.S", Expr: `js.S{1, "x"}`, JS: "Array:[number:1,string:0078]", Back: "itoa(int64(r.Length()))", BackOK: "2"},
 		val{ID: "map/string-int", Type: "map[string]int", Expr: `map[string]int{"a": 1, "b": 2}`, JS: "Object:{a=number:1,b=number:2}", Back: "itoa(int64(r.Get(\"b\").Int()))", BackOK: "2"},
 		val{ID: "map/M", Type: "js.M", Expr: `js.M{"k": "v", "n": js.M{"i": 1}}`, JS: "Object:{k=string:0076,n=Object:{i=number:1}}", Back: "r.Get(\"k\").String()", BackOK: "v"},
@@ -173,7 +192,26 @@ type inner struct {
 	*js.Object
 	Label string ` + "`js:\"label\"`" + `
 }
+type listener func(int) int
+type counter struct {
+	*js.Object
+	Base  int               ` + "`js:\"base\"`" + `
+	Add   func(int) int     ` + "`js:\"add\"`" + `
+	Join  func(...string) string ` + "`js:\"join\"`" + `
+	Width float64           ` + "`js:\"width\"`" + `
+}
+
+func apply(f func(int) int, x int) int { return f(x) }
 `
+
+// isConstExpr: the value's expression is a typed constant expression.
+func isConstExpr(v val) bool {
+	switch v.Type {
+	case "bool", "string", "int8", "int16", "int32", "int", "uint8", "uint16", "uint32", "uint", "uintptr", "int64", "uint64", "float64", "float32":
+		return !strings.Contains(v.Expr, "()")
+	}
+	return false
+}
 
 // Program builds the C11 program and its expected output.
 func Program() diffrun.Program {
@@ -194,11 +232,22 @@ func Program() diffrun.Program {
 	for _, v := range vals() {
 		w("\t{\n\t\tvar v %s = %s\n", v.Type, v.Expr)
 		for _, r := range routes {
-			if r.name == "argpass" && (strings.HasPrefix(v.ID, "nil/") || strings.HasPrefix(v.ID, "struct/") || strings.Contains(v.Type, "float32") && strings.Contains(v.ID, "0.1")) {
+			if r.name == "argpass" && (v.Back == "" || strings.HasPrefix(v.ID, "nil/") || strings.HasPrefix(v.ID, "struct/") || strings.Contains(v.Type, "float32") && strings.Contains(v.ID, "0.1")) {
 				continue
 			}
 			w("\t\to(%q, %s.String())\n", v.ID+"/"+r.name, strings.ReplaceAll(r.call, "TYPE", v.Type))
 			exp = append(exp, "C11/"+v.ID+"/"+r.name+" "+v.JS)
+		}
+		// the same value written as a constant operand (no variable in between)
+		if isConstExpr(v) {
+			for _, r := range routes[:5] {
+				w("\t\to(%q, %s.String())\n", v.ID+"/const-"+r.name, strings.ReplaceAll(strings.ReplaceAll(r.call, ", v)", ", "+v.Expr+")"), "Invoke(v)", "Invoke("+v.Expr+")"))
+				exp = append(exp, "C11/"+v.ID+"/const-"+r.name+" "+v.JS)
+			}
+		}
+		if v.Back == "" {
+			w("\t}\n")
+			continue
 		}
 		// round trip through JavaScript and back
 		w("\t\tr := g.Call(\"verifEcho\", v)\n\t\t_ = r\n")
@@ -290,8 +339,17 @@ func Program() diffrun.Program {
 	other := func(a int) int { return a + 1 }
 	g.Set("f3", other)
 	o("identity", btoa(same == ob)+btoa(g.Call("verifSame", ob, same).Bool())+btoa(g.Call("verifSame", g.Get("f1"), g.Get("f2")).Bool())+btoa(g.Call("verifSame", g.Get("f1"), g.Get("f3")).Bool())+btoa(g.Call("verifSame", fn, fn).Bool()))
+	// the same Go function under a named function type, inside an interface, a slice and a map
+	var named listener = fn
+	g.Set("f4", named)
+	var boxed interface{} = fn
+	g.Set("f5", boxed)
+	g.Set("f6", []interface{}{fn})
+	g.Set("f7", js.M{"h": fn})
+	g.Set("f8", listener(fn))
+	o("identity2", btoa(g.Call("verifSame", g.Get("f1"), g.Get("f4")).Bool())+btoa(g.Call("verifSame", g.Get("f1"), g.Get("f5")).Bool())+btoa(g.Call("verifSame", g.Get("f1"), g.Get("f6").Index(0)).Bool())+btoa(g.Call("verifSame", g.Get("f1"), g.Get("f7").Get("h")).Bool())+btoa(g.Call("verifSame", g.Get("f4"), g.Get("f8")).Bool())+btoa(g.Call("verifSame", named, fn).Bool())+itoa(int64(g.Call("f4", 1).Int())))
 `)
-	exp = append(exp, "C11/identity TTTFT")
+	exp = append(exp, "C11/identity TTTFT", "C11/identity2 TTTTTT2")
 	// exposed functions: arguments and results are converted, variadic, multiple results, this
 	w(`	g.Set("goAdd", func(a int, b float64, s string, ok bool) string { return itoa(int64(a)) + ftoa(b) + s + btoa(ok) })
 	g.Set("goVar", func(prefix string, rest ...int) int { t := len(prefix); for _, r := range rest { t += r }; return t })
@@ -315,6 +373,49 @@ func Program() diffrun.Program {
 	o("wrapper", before+"|"+g.Call("verifProbe", raw).String()+"|"+g.Call("verifProbe", wr).String()[:6]+btoa(g.Call("verifSame", wr, raw).Bool()))
 `)
 	exp = append(exp, "C11/wrapper nm7f3ff8000000000000Tlab8|Object:{count=number:-3,flag=boolean:false,fn=function,inner=Object:{label=string:0063,0068,0061,006e,0067,0065,0064},name=string:006e,00e9,ratio=number:2.5}|ObjectT")
+	w(`// js-tagged function fields keep the wrapped object as "this", called directly or taken as a value first
+	cn := &counter{Object: g.Call("verifMake", "counter")}
+	add := cn.Add
+	join := cn.Join
+	o("method-this", itoa(int64(cn.Add(1)))+"|"+itoa(int64(add(2)))+"|"+itoa(int64(apply(cn.Add, 3)))+"|"+cn.Join("a", "b")+"|"+join("c")+"|"+join([]string{"d", "e"}...)+"|"+itoa(int64(cn.Base)))
+	// typed accessors, parameters of exposed functions and js-tagged fields apply the documented JavaScript conversions to non-numbers
+	g.Set("goF", func(x float64) string { return ftoa(x) })
+	g.Set("goI", func(x int) string { return itoa(int64(x)) })
+	nonNumbers := g.Call("verifMake", "nonnumbers")
+	for i := 0; i < nonNumbers.Length(); i++ {
+		x := nonNumbers.Index(i)
+		id := "nonnumber/" + itoa(int64(i))
+		wantF := ftoa(g.Call("verifParseFloat", x).Float())
+		wantI := itoa(int64(g.Call("verifParseInt32", x).Int()))
+		cn.Object.Set("width", x)
+		res := ""
+		if got := ftoa(x.Float()); got != wantF {
+			res += "Float()=" + got + " want " + wantF + ";"
+		}
+		if got := itoa(int64(x.Int())); got != wantI {
+			res += "Int()=" + got + " want " + wantI + ";"
+		}
+		if got := g.Call("goF", x).String(); got != wantF {
+			res += "func(float64) got " + got + " want " + wantF + ";"
+		}
+		if got := g.Call("goI", x).String(); got != wantI {
+			res += "func(int) got " + got + " want " + wantI + ";"
+		}
+		if got := ftoa(cn.Width); got != wantF {
+			res += "float64 field=" + got + " want " + wantF + ";"
+		}
+		if got := btoa(x.Bool()); got != btoa(g.Call("verifTruthy", x).Int() == 1) {
+			res += "Bool()=" + got + ";"
+		}
+		if got := x.String(); got != g.Call("verifString", x).String() {
+			res += "String()=" + got + ";"
+		}
+		if res == "" {
+			res = "ok"
+		}
+		o(id, res)
+	}
+`)
 	// blocking Go code called from a JavaScript callback fails with the documented error and leaves the scheduler usable
 	w(`	ch := make(chan int)
 	g.Set("goBlocks", func() int { return <-ch })
@@ -331,6 +432,10 @@ func Program() diffrun.Program {
 	o("callback-goroutine", itoa(int64(<-ch)))
 }
 `)
+	exp = append(exp, "C11/method-this 6|7|8|5:a,b|5:c|5:d,e|5")
+	for i := 0; i < NonNumbers; i++ {
+		exp = append(exp, fmt.Sprintf("C11/nonnumber/%d ok", i))
+	}
 	exp = append(exp, "C11/callback-guard runtime error: cannot block in JavaScript callback, fix by wrapping code in goroutine|7", "C11/callback-goroutine 5")
 	return diffrun.Program{Name: "c11_js", Files: map[string]string{"main.go": b.String()}, NoNative: true, Expect: exp}
 }
